@@ -950,6 +950,8 @@ def check_C14(chk):
             if fmt == 'toml' and 'tojson' in json.dumps(vec['prog']):
                 continue
             f = '(' + val_filter(v) + ')'
+            if len(f) > 100000:
+                continue        # too long for a command line; the filters are checked by the replay above
             rc1, lib, e1 = jaq(['-n', '-j', f + ' | to' + fmt])
             opts = [['--to', fmt]] + ([['--to', fmt, '-c']] if fmt == 'yaml' else [])
             ncli += 1
